@@ -40,12 +40,17 @@ def render_attrs(d, skip=(), only=None):
     return ";".join(f"{k}={_r(d[k])}" for k in keys)
 
 
+SATURATE = 10**8
+
+
 def _small(v, absent=0):
     """integers travel as JSON numbers only when they fit TLC's 32-bit integers"""
     if v is None:
         return absent
-    if isinstance(v, bool) or not isinstance(v, int) or abs(v) >= 2**30:
+    if isinstance(v, bool) or not isinstance(v, int):
         return None
+    if abs(v) > SATURATE:          # the specification's numbers saturate at the same bound (spec/Grammar.tla: BigNum)
+        return SATURATE if v > 0 else -SATURATE
     return v
 
 
